@@ -173,16 +173,25 @@ theorem c12_subband_index_agrees (L res band : Int) (hr : 1 ≤ res ∧ res ≤ 
     simp
 example : subbandIndex 5 3 2 = 8 ∧ subbandParams 8 5 = (2, 2) := by decide
 
-/-- (5') the band walk of applyQuantizationBySubbandFloat / applyDequantizationBySubbandFloat (hand model of the counter
-    loop): every band — EMPTY OR NOT, the counter advances unconditionally — is (de)quantised with the QCD entry
-    `subbandIndex numLevels res band` (generated), the walk visits 3·numLevels + 1 entries, and LL uses entry 0.
-    (Tied to the code by the search on narrow, deeply decomposed images, where some bands are empty.) -/
+/-- (5') the band walks of applyQuantizationBySubbandFloat (encoder) and applyDequantizationBySubbandFloat (decoder): the
+    counter update is the GENERATED loop body sliced on `subbandIdx` (go2lean loop mode, `slice`), and it is `+1` for
+    every band whatever its size; hence every band — EMPTY OR NOT — is (de)quantised with the QCD entry
+    `subbandIndex numLevels res band` (generated), the walk visits 3·numLevels + 1 entries and LL uses entry 0.
+    An edit that skips the increment for empty bands (`continue`) or moves it under the emptiness test leaves the
+    translated subset or changes the kernel: the generator or this theorem breaks. -/
 theorem c12_band_walk_uses_subband_index (L : Nat) :
-    (stepWalk L).length = 3 * L + 1 ∧ (stepWalk L).head? = some (0, 0, 0) ∧
-    ∀ t ∈ (stepWalk L).tail, 1 ≤ t.1 ∧ t.1 ≤ L ∧ 1 ≤ t.2.1 ∧ t.2.1 ≤ 3 ∧ (t.2.2 : Int) = subbandIndex L t.1 t.2.1 := by
-  refine ⟨by simp [stepWalk, resLoop_length], rfl, ?_⟩
-  intro t ht
-  exact resLoop_spec L 1 1 L (by omega) (by omega) (by omega) t (by simpa [stepWalk] using ht)
+    (∀ w h x0 y0 i b, Gen.J2kQuant.bandWalkStep w h x0 y0 i b = i + 1) ∧
+    (∀ w h nl bd x0 y0 i b, Gen.J2kQuantT2.bandWalkStep w h nl bd x0 y0 i b = i + 1) ∧
+    (stepWalk L).length = 3 * L + 1 ∧ (stepWalk L).head? = some (0, 0, 0) ∧ stepWalkDec L = stepWalk L ∧
+    ∀ t ∈ (stepWalk L).tail, 1 ≤ t.1 ∧ t.1 ≤ L ∧ 1 ≤ t.2.1 ∧ t.2.1 ≤ 3 ∧ t.2.2 = subbandIndex L t.1 t.2.1 := by
+  have e1 : ∀ w h x0 y0 i b, Gen.J2kQuant.bandWalkStep w h x0 y0 i b = i + 1 := by
+    intros; simp [Gen.J2kQuant.bandWalkStep]
+  have e2 : ∀ w h nl bd x0 y0 i b, Gen.J2kQuantT2.bandWalkStep w h nl bd x0 y0 i b = i + 1 := by
+    intros; simp [Gen.J2kQuantT2.bandWalkStep]
+  refine ⟨e1, e2, by simp [stepWalk, resLoop_length], rfl, ?_, ?_⟩
+  · simp only [stepWalkDec, stepWalk, e1, e2]
+  · intro t ht
+    exact resLoop_spec _ (fun i => e1 0 0 0 0 i 0) L 1 1 L (by omega) (by omega) (by omega) t (by simpa [stepWalk] using ht)
 example : stepWalk 2 = [(0, 0, 0), (1, 1, 1), (1, 2, 2), (1, 3, 3), (2, 1, 4), (2, 2, 5), (2, 3, 6)] := by decide
 
 /-- The full property, as a statement about the (unmodelled) real encoder/decoder pair: `enc`/`dec` stand for
